@@ -415,6 +415,7 @@ func TestVfLifeRace(t *testing.T) {
 	}
 	r := &vfRng{s: vfSeed()*97 + 81}
 	deadline := time.Now().Add(time.Duration(vfEnvInt("VF_RACE_SECONDS", 20)) * time.Second)
+	rounds := 0
 	for time.Now().Before(deadline) {
 		conf := DefaultLANConfig()
 		conf.Name = "self"
@@ -466,5 +467,13 @@ func TestVfLifeRace(t *testing.T) {
 		}
 		wg.Wait()
 		m.Shutdown()
+		rounds++
+	}
+	st := vfNewStats("liferace")
+	st.Rule = "rounds of 6 goroutines x 40 random public calls each against a running node with 2-5 ms protocol intervals, under go test -race"
+	st.Ops = rounds * 240
+	st.OpHist["rounds"] = rounds
+	if err := vfEmit(st, nil, "From VF Require Import Raw LifeCheck.", "LifeCheck.check_case", true); err != nil {
+		t.Fatal(err)
 	}
 }
